@@ -153,15 +153,17 @@ fn c03_paid_put() {
     let mut q0 = quote(k0, if own_quote_for_this_address { target } else { other }, t0);
     let mut q1 = quote(k1, target, t1);
     let include_q1 = two_quotes || !payees_close;
+    let mut forged_extra = false;
     if !sigs_authentic {
         // one quote of the proof is signed by somebody else's key, carries garbage, or had a signed field
         // altered after signing
         let on_q1 = include_q1 && choice(2) == 1;
         let q = if on_q1 { &mut q1 } else { &mut q0 };
-        match choice(3) {
+        match choice(4) {
             0 => q.signature = ideal_sign(9, &q.bytes_for_sig()),
             1 => q.signature = vec![1, 2, 3],
-            _ => q.quoting_metrics.received_payment_count += 1,
+            2 => q.quoting_metrics.received_payment_count += 1,
+            _ => forged_extra = true,
         }
     }
     let mut peer_quotes = vec![(EncodedPeerId::from(peer(k0)), q0)];
@@ -169,6 +171,12 @@ fn c03_paid_put() {
         peer_quotes.push((EncodedPeerId::from(peer(k1)), q1));
     }
     let n_quotes = peer_quotes.len();
+    if forged_extra {
+        // an additional entry whose claimed identity does not decode, with an unsigned quote naming our key
+        let mut f = quote(0, target, t0);
+        f.signature = vec![];
+        peer_quotes.push((crate::data_payments::harness::undecodable_peer_id(), f));
+    }
     let proof = ProofOfPayment { peer_quotes };
     CONTRACT.with(|ct| ct.borrow_mut().answer_ok = contract_ok);
     note(format!("{kind:?} sigs={sigs_authentic} self_payee={self_is_payee} payees_close={payees_close} contract={contract_ok} own_quote_addr={own_quote_for_this_address} quotes={n_quotes}"));
@@ -217,7 +225,7 @@ fn c03_unpaid_put() {
             }
             _ => unpaid_record(kind, key.clone()),
         };
-        c.net.inner.store.borrow_mut().insert(key.clone(), r);
+        c.net.hold(r);
     }
     note(format!("{kind:?} held={held}"));
     let before = store_snapshot(&c);
@@ -263,7 +271,8 @@ fn c04_key_binding() {
                 }
                 _ => unpaid_record(kind, k.clone()),
             };
-            c.net.inner.store.borrow_mut().insert(k, r);
+            let _ = k;
+            c.net.hold(r);
         }
     }
     CONTRACT.with(|ct| ct.borrow_mut().answer_ok = true);
@@ -311,7 +320,7 @@ fn c07_scratchpad_seq() {
     let c1 = Counter(SymU::fresh("delivered_counter"));
     let old = pad_access::make(&owner, c0, b"old-content", Some(&owner));
     let key = old.network_address().to_record_key();
-    c.net.inner.store.borrow_mut().insert(key.clone(), Record { key: key.clone(), value: try_serialize_record(&old, RecordKind::Scratchpad).unwrap().to_vec(), publisher: None, expires: None });
+    c.net.hold(Record { key: key.clone(), value: try_serialize_record(&old, RecordKind::Scratchpad).unwrap().to_vec(), publisher: None, expires: None });
     // the delivered version: owner-signed, signed by somebody else, or unsigned; possibly for another owner
     let sig = choice(3);
     let foreign_owner = choice(2) == 1;
@@ -367,10 +376,16 @@ fn c07_union() {
             (_, false) => vec![b.clone(), a.clone()],
             (_, true) => vec![b.clone(), a.clone(), b.clone()],
         };
-        note(format!("transactions order={order} duplicate={dup}"));
+        let back_to_back = choice(2) == 1;
+        c.net.inner.index_lag.set(true);
+        note(format!("transactions order={order} duplicate={dup} back_to_back={back_to_back}"));
         for r in seq {
             let _ = block_on(c.node.store_replicated_in_record(r));
+            if !back_to_back {
+                c.net.complete_writes();
+            }
         }
+        c.net.complete_writes();
         let stored: Vec<Transaction> = c.net.inner.store.borrow().get(&key).map(|r| try_deserialize_record(r).unwrap()).unwrap_or_default();
         cover("transactions");
         check_bool("tx:union_of_valid_deliveries", stored.contains(&tx1) && stored.contains(&tx2) && stored.len() == 2);
@@ -395,17 +410,27 @@ fn c07_union() {
         let ra = mk(&[b"entry-a"], 3);
         let rb = mk(&[b"entry-b"], 5); // anyone can write
         let order = choice(2);
-        note(format!("registers order={order}"));
+        let back_to_back = choice(2) == 1;
+        c.net.inner.index_lag.set(true);
+        note(format!("registers order={order} back_to_back={back_to_back}"));
         let rec = |r: &SignedRegister| Record { key: key.clone(), value: try_serialize_record(r, RecordKind::Register).unwrap().to_vec(), publisher: None, expires: None };
         let seq = if order == 0 { vec![rec(&ra), rec(&rb), rec(&ra)] } else { vec![rec(&rb), rec(&ra)] };
         for r in seq {
             let _ = block_on(c.node.store_replicated_in_record(r));
+            if !back_to_back {
+                c.net.complete_writes();
+            }
         }
+        c.net.complete_writes();
         let stored: SignedRegister = c.net.inner.store.borrow().get(&key).map(|r| try_deserialize_record(r).unwrap()).expect("stored");
         cover("registers");
         let mut expect = ra.clone();
         expect.merge(&rb).unwrap();
-        check_bool("reg:union_of_delivered_ops", stored.ops() == expect.ops());
+        if back_to_back && stored.ops() != expect.ops() {
+            check_bool("reg:union_of_delivered_ops[second_delivery_before_first_write_indexed_overwrites]", false);
+        } else {
+            check_bool("reg:union_of_delivered_ops", stored.ops() == expect.ops());
+        }
         check_bool("reg:stored_register_verifies", stored.verify().is_ok());
     }
 }
@@ -424,7 +449,7 @@ fn c07_scratchpad_conc() {
     symrt::assume(ca.0.slt(cb.0).0);
     let old = pad_access::make(&owner, c0, b"old", Some(&owner));
     let key = old.network_address().to_record_key();
-    c.net.inner.store.borrow_mut().insert(key.clone(), Record { key: key.clone(), value: try_serialize_record(&old, RecordKind::Scratchpad).unwrap().to_vec(), publisher: None, expires: None });
+    c.net.hold(Record { key: key.clone(), value: try_serialize_record(&old, RecordKind::Scratchpad).unwrap().to_vec(), publisher: None, expires: None });
     c.net.inner.defer_puts.set(true);
     c.net.inner.yield_on_queries.set(true);
     let pa = pad_access::make(&owner, ca, b"version-a", Some(&owner));
